@@ -245,6 +245,22 @@ Fixpoint c02_mon (started joined : nat) (tr : trace) : bool :=
 Definition C02_ok (complete : bool) (tr : trace) : bool :=
   c02_mon 0 0 tr && (if complete then main_exited tr else true).
 
+(* ... and a pause that was given up is withdrawn ("pause and resume make progress"): whenever a control tick begins,
+   the resume event is set or the pause has been acknowledged (the clock is paused) - no thread is left waiting for a
+   resume on behalf of a pause request the control thread has abandoned.  The monitor follows the control thread's
+   operations on the resume event and on the clock. *)
+Definition wd_res (t : tid) (l : label) (r : bool) : bool :=
+  match t, l with TCtl, LClear ERes => false | TCtl, LSet ERes => true | _, _ => r end.
+Definition wd_ack (t : tid) (l : label) (a : bool) : bool :=
+  match t, l with TCtl, LClockPause => true | TCtl, LClockResume => false | _, _ => a end.
+Definition wd_tick (t : tid) (l : label) : bool := match t, l with TCtl, LSaveCond _ => true | _, _ => false end.
+Fixpoint c02_wd (res ack : bool) (tr : trace) : bool :=
+  match tr with
+  | [] => true
+  | (t, l) :: r => (if wd_tick t l then res || ack else true) && c02_wd (wd_res t l res) (wd_ack t l ack) r
+  end.
+Definition C02_withdrawn (tr : trace) : bool := c02_wd false false tr.
+
 (* ---------- C17: commands accepted by the web API are executed once, in acceptance order, up to a shutdown ---------- *)
 Definition cmd_eqb (a b : cmd) : bool :=
   match a, b with CmdPause, CmdPause | CmdResume, CmdResume | CmdSave, CmdSave | CmdShutdown, CmdShutdown => true | _, _ => false end.
